@@ -200,9 +200,9 @@ Section Own.
   (** st.Bs.Copy().Extendm("error", ..., "lastNode", ..., "lastBindings", ...) *)
   Definition error_tbs (base : tbs) (text : json) (from : state) : tbs * wlog :=
     let c := t_copy base in
-    let '(t1, l1) := t_extend c "error" text in
-    let '(t2, l2) := t_extend t1 "lastNode" (JStr (st_node from)) in
-    let '(t3, l3) := t_extend t2 "lastBindings" (JObj (copy_bs (st_bs from))) in
+    let '(t1, l1) := t_extend c step_error_key text in
+    let '(t2, l2) := t_extend t1 step_last_node_key (JStr (st_node from)) in
+    let '(t3, l3) := t_extend t2 step_last_bindings_key (JObj (copy_bs (st_bs from))) in
     (t3, l1 ++ l2 ++ l3).
 
   Record tstep_out : Type := mk_tstep_out {
@@ -251,8 +251,8 @@ Section Own.
             else
               (* bs = bs.Copy(); bs.Extend("actionError"); bs.Extend("error") *)
               let c := t_copy (ts_bs st) in
-              let '(t1, l1) := t_extend c "actionError" err_text in
-              let '(t2, l2) := t_extend t1 "error" err_text in
+              let '(t1, l1) := t_extend c step_action_error_key err_text in
+              let '(t2, l2) := t_extend t1 step_error_key err_text in
               if negb (sp_err_branches s) then
                 if String.eqb (sp_err_node s) "" then mk_tstep_out None (Some EAction) (l ++ l1 ++ l2)
                 else mk_tstep_out
